@@ -184,6 +184,35 @@ fn exhaustive(ctx: &mut Ctx) {
             }
         }
     }
+    // thorough: every ordered triple over the ASCII characters with a role in the grammar or
+    // in URL escaping, in each position (context-dependent escaping would show here)
+    if !ctx.quick() {
+        const T: &[u8] = b"/@?#&=:,%+ \"<>`{}\\|^~a.A0";
+        let mut idx = 0u64;
+        let mut n = 0u64;
+        for a in T {
+            for b in T {
+                for c in T {
+                    idx += 1;
+                    n += 1;
+                    if !ctx.mine(idx) {
+                        continue;
+                    }
+                    let text: String = [*a as char, *b as char, *c as char].iter().collect();
+                    for pos in 0..5 {
+                        ctx.st.evaluations += 1;
+                        ctx.st.count("exhaustive:separator-triples-x-position");
+                        if let Some(f) = judge_placed(pos, &text) {
+                            report_placed(ctx, pos, &text, f);
+                        }
+                    }
+                }
+            }
+        }
+        if ctx.worker == 0 {
+            ctx.st.exhaustive.push(json!({"name": format!("every ordered triple over {} grammar / escaping characters in each of the 5 positions", T.len()), "size": n * 5, "completed": true}));
+        }
+    }
     // every qualifier-key character (keys are never escaped, and are lower-cased)
     if ctx.worker == 0 {
         for c in "abcdefghijklmnopqrstuvwxyz0123456789._-".chars() {
